@@ -20,6 +20,7 @@ META = {
     "not_decided": "whether the sub-scanners accept exactly the RFC grammar (lenient \\u digits, number forms)",
     "assumptions": ["cursor + small constant does not overflow SizeT", "by-reference parameters do not alias"],
 }
+META["explanation"] += " " + "(PR-forward) the public JSON::Parse overloads hand the caller's content and length on unchanged (Count(content) for the one-argument form)."
 
 PARSER = "Qentem::JSON::JSONParser::"
 DESCENT = ("parseValue", "parseObject", "parseArray")
